@@ -430,8 +430,11 @@ def u_exp_by_p(ctx):
 
     def body(path):
         tab = [fsym(f"T{i}", KF) for i in range(12)]
-        K = FldKind("Zp", modulus=None)
-        cs = [fsym(f"c{i}", KF) for i in range(12)]
+        from pyvc.core import PToken
+        pt = PToken("p")
+        Kc = FldKind("ZmodP", modulus=pt)           # coefficients are plain ints in [0, p): truthiness = non-zero
+        pt.kind = Kc
+        cs = [Fld(PR(Poly.var(f"c{i}")), Kc, reduced=True) for i in range(12)]
 
         class X:
             pass
